@@ -60,10 +60,48 @@ static struct line_s alpha2[] = {
 	{"no\001date", K_NONE, 0, 0, 0, 0, 0},
 };
 #define NALPHA_X	5
+/* configurations 3 and 4: epoch stamps read with -i %s / -i @%s.  The stamps hold pairs inside one
+ * 65536-second block on both sides of a UTC midnight (1330559000/1330560000/1330561000 around
+ * 2012-03-01T00:00:00Z; -90000/-80000 around 1969-12-31T00:00:00Z), pairs in neighbouring blocks, equal
+ * days with different times, negative stamps, a stamp inside text and a line without one;
+ * .inst is the stamp itself (filled in at start-up from the text) */
+static struct line_s alpha3[] = {
+	{"1330559000", K_DT, 0, 0, 0, 0, 0},
+	{"1330561000", K_DT, 0, 0, 0, 0, 0},
+	{"1330560000", K_DT, 0, 0, 0, 0, 0},
+	{"1330600000", K_DT, 0, 0, 0, 0, 0},
+	{"1330646399", K_DT, 0, 0, 0, 0, 0},
+	{"-90000", K_DT, 0, 0, 0, 0, 0},
+	{"-80000", K_DT, 0, 0, 0, 0, 0},
+	{"-1000", K_DT, 0, 0, 0, 0, 0},
+	{"500", K_DT, 0, 0, 0, 0, 0},
+	{"no stamp here", K_NONE, 0, 0, 0, 0, 0},
+};
+static struct line_s alpha4[] = {
+	{"@1330559000", K_DT, 0, 0, 0, 0, 0},
+	{"@1330561000", K_DT, 0, 0, 0, 0, 0},
+	{"@1330560000", K_DT, 0, 0, 0, 0, 0},
+	{"@1330600000", K_DT, 0, 0, 0, 0, 0},
+	{"@1330646399", K_DT, 0, 0, 0, 0, 0},
+	{"@-90000", K_DT, 0, 0, 0, 0, 0},
+	{"@-80000", K_DT, 0, 0, 0, 0, 0},
+	{"@-1000", K_DT, 0, 0, 0, 0, 0},
+	{"@500", K_DT, 0, 0, 0, 0, 0},
+	{"no stamp here", K_NONE, 0, 0, 0, 0, 0},
+};
+#define NALPHA_E	10
+#define NCFG	5
 static struct line_s *alpha = alpha0;
-static int cfg;		/* 0: main alphabet; 1: sub-seconds; 2: byte 0x01 */
-static const char *const cfg_ifmt[3] = {NULL, "%FT%T.%N", NULL};
-static const char *const cfg_tag[3] = {"", " [sub-second parts, -i %FT%T.%N]", " [lines containing byte 0x01]"};
+static int cfg;		/* 0: main alphabet; 1: sub-seconds; 2: byte 0x01; 3: epoch stamps -i %s; 4: -i @%s */
+static const char *const cfg_ifmt[NCFG] = {NULL, "%FT%T.%N", NULL, "%s", "@%s"};
+static const char *const cfg_tag[NCFG] = {"", " [sub-second parts, -i %FT%T.%N]", " [lines containing byte 0x01]", " [epoch stamps, -i %s]", " [epoch stamps, -i @%s]"};
+
+static struct line_s*
+cfg_alpha(int c)
+{
+	return c == 0 ? alpha0 : c == 1 ? alpha1 : c == 2 ? alpha2 : c == 3 ? alpha3 : alpha4;
+}
+
 
 static int
 line_ns(const struct line_s *l)
@@ -278,8 +316,14 @@ main(int argc, char *argv[])
 
 	ex_init(argc, argv);
 	rc_selfcheck();
+	for (int i = 0; i < NALPHA_E; i++) {
+		if (alpha3[i].kind == K_DT) {
+			alpha3[i].inst = strtoll(alpha3[i].text, NULL, 10);
+			alpha4[i].inst = strtoll(alpha4[i].text + 1, NULL, 10);
+		}
+	}
 	for (int c = 0; c < 3; c++) {
-		struct line_s *al = c == 0 ? alpha0 : c == 1 ? alpha1 : alpha2;
+		struct line_s *al = cfg_alpha(c);
 		for (int i = 0; i < (c == 0 ? NALPHA : NALPHA_X); i++) {
 			if (al[i].kind == K_TIME) {
 				al[i].inst = al[i].sod;
@@ -301,18 +345,18 @@ main(int argc, char *argv[])
 	if (ex.cas) {
 		int rev, len, seq[MAXLEN], n = 0;
 		const char *p = ex.cas;
-		if (sscanf(p, "%d %d %d%n", &cfg, &rev, &len, &n) != 3 || len < 0 || len > MAXLEN || cfg < 0 || cfg > 2) {
+		if (sscanf(p, "%d %d %d%n", &cfg, &rev, &len, &n) != 3 || len < 0 || len > MAXLEN || cfg < 0 || cfg >= NCFG) {
 			return ex_replay_result(1, "bad case string '%s'", ex.cas);
 		}
 		p += n;
 		for (int i = 0; i < len; i++) {
-			alpha = cfg == 0 ? alpha0 : cfg == 1 ? alpha1 : alpha2;
-			if (sscanf(p, "%d%n", seq + i, &n) != 1 || seq[i] < 0 || seq[i] >= (cfg == 0 ? NALPHA : NALPHA_X)) {
+			alpha = cfg_alpha(cfg);
+			if (sscanf(p, "%d%n", seq + i, &n) != 1 || seq[i] < 0 || seq[i] >= (cfg == 0 ? NALPHA : cfg <= 2 ? NALPHA_X : NALPHA_E)) {
 				return ex_replay_result(1, "bad case string '%s'", ex.cas);
 			}
 			p += n;
 		}
-		alpha = cfg == 0 ? alpha0 : cfg == 1 ? alpha1 : alpha2;
+		alpha = cfg_alpha(cfg);
 		return ex_replay_result(judge(seq, len, rev, 1), "dsort%s on %d lines", rev ? " -r" : "", len);
 	}
 	/* the full alphabet up to length LFULL, the alphabet without the ISO-week lines at the last length */
@@ -334,7 +378,9 @@ main(int argc, char *argv[])
 		ex_meta("bound", "all sequences of length 0..%d over the %d-line alphabet (two texts of one date, an earlier date, two date-times, "
 			"two times, a line without a date, an empty line, two ISO-week dates) and all of length %d over its first %d lines "
 			"(without the ISO-week dates): %ld sequences x {no option, -r} = %ld runs of the binary; plus all sequences of length 0..%d over "
-			"two 5-line alphabets: date-times with sub-second parts read with -i %%FT%%T.%%N, and lines containing the byte 0x01",
+			"two 5-line alphabets: date-times with sub-second parts read with -i %%FT%%T.%%N, and lines containing the byte 0x01; plus a 10-line alphabet of "
+			"epoch stamps (pairs inside one 65536-s block across a UTC midnight, neighbouring blocks, same day, negative stamps, a line without one) "
+			"read with -i %%s (all sequences up to length 3 quick / 4 thorough) and with -i @%%s (2 / 3), oracle = numeric order of the stamps",
 			maxlen - 1, NALPHA, maxlen, NALPHA_SHORT, tot, 2 * tot, ex.thorough ? 5 : 3);
 		ex_meta("binding", "every case is a run of the dsort binary of the same build (sort and cut from PATH, LC_ALL=C)");
 	}
@@ -377,26 +423,28 @@ main(int argc, char *argv[])
 	/* configurations 1 and 2: all sequences up to length 3 (quick) / 5 (thorough) over their 5-line alphabets */
 	{
 		uint64_t slice = 1000000;
-		int xlen = ex.thorough ? 5 : 3;
-		for (cfg = 1; cfg <= 2; cfg++) {
-			alpha = cfg == 1 ? alpha1 : alpha2;
+		for (cfg = 1; cfg < NCFG; cfg++) {
+			/* lengths: sub-seconds and 0x01: 3 / 5; -i %s: 3 / 4; -i @%s: 2 / 3 */
+			const int xlen = cfg <= 2 ? (ex.thorough ? 5 : 3) : cfg == 3 ? (ex.thorough ? 4 : 3) : (ex.thorough ? 3 : 2);
+			const int NX = cfg <= 2 ? NALPHA_X : NALPHA_E;
+			alpha = cfg_alpha(cfg);
 			for (int len = 0; len <= xlen; len++) {
 				int seq[MAXLEN] = {0};
 				long n = 1;
 				for (int i = 0; i < len; i++) {
-					n *= NALPHA_X;
+					n *= NX;
 				}
 				for (long k = 0; k < n; k++) {
 					long x = k;
-					if (k % NALPHA_X == 0) {
+					if (k % NX == 0) {
 						slice++;
 					}
 					if (!ex_mine(slice) || ex_expired()) {
 						continue;
 					}
 					for (int i = len - 1; i >= 0; i--) {
-						seq[i] = (int)(x % NALPHA_X);
-						x /= NALPHA_X;
+						seq[i] = (int)(x % NX);
+						x /= NX;
 					}
 					++*c_states;
 					for (int rev = 0; rev < 2; rev++) {
